@@ -247,6 +247,9 @@ class Machine:
         t = rsrc.STD_ENUMS.get(p)
         if t is None and not p.startswith('std::'):
             t = self.src.enums.get(path)
+            if t is None:
+                # enums declared inside a function body: mod::function::Enum
+                t = self.src.enum_variants(path)
         self.enum_cache[path] = t
         return t
 
@@ -640,8 +643,10 @@ class Path:
                 if isinstance(v, (Agg, En)):
                     cur = Ref(v, p[1])
                 elif isinstance(v, BoxV) and p[1] == 0:
-                    # Box internals (Unique pointer) – treat field 0 chain as the box itself
-                    cur = Ref(v, None)
+                    # Box internals: (_b.0: Unique<T>).0: NonNull<T> – the raw pointer of the box
+                    cur = Ref(Cell(BoxPtr(v)), None)
+                elif isinstance(v, BoxPtr) and p[1] == 0:
+                    cur = Ref(Cell(v), None)
                 else:
                     raise Unsupported('field .%d of %s in %s' % (p[1], type(v).__name__, f.name))
             elif k == 'downcast':
@@ -884,6 +889,8 @@ class Path:
         if kind.startswith('PointerCoercion(MutToConstPointer') or kind == 'PtrToPtr':
             return v
         if kind == 'Transmute':
+            if isinstance(v, BoxPtr):
+                return Ref(v.box, None)
             if isinstance(v, Sc) and ty.strip() in M.INT_TYPES:
                 w, s = M.INT_TYPES[ty.strip()]
                 if w == v.w:
@@ -1007,6 +1014,14 @@ class Path:
         if isinstance(inner, PyFn):
             return inner.fn(self, *args)
         raise Unsupported('call of value %r' % (inner,))
+
+
+class BoxPtr:
+    """the raw pointer stored inside a Box (reached through its private fields)"""
+    __slots__ = ('box',)
+
+    def __init__(self, box):
+        self.box = box
 
 
 class PyFn:
